@@ -14,6 +14,11 @@ Two families of bounded, completely enumerated sub-spaces (DESIGN section 4, C06
     piecewise integration of all tempo changes in tick order (Fractions), note-on paired with the
     next note-off / zero-velocity note-on of the same channel and pitch, ids ordered by
     (onset, pitch, offset, channel, track).
+(c) silence removal ("silence-*"): the same two kinds of input (abstract files; saved performances) are
+    loaded with `load_performance(..., first_note_at_zero=True)`; the expectation is the reference
+    reading on a time axis whose origin is the first note onset: notes exactly, control / program
+    changes through the value in effect at every time >= 0 (mc/c06_silence.py), with events placed
+    before, at and after the first onset.
 """
 import itertools
 import os
@@ -23,6 +28,7 @@ from fractions import Fraction as F
 
 from mc.core import CaseResult, Space, run_check, guarded, block_of, innermost_partitura_frame, exc_text
 from mc import c06_model as M
+from mc import c06_silence as SIL
 
 PID = "C06"
 RULE = (
@@ -49,6 +55,14 @@ ASSUMPTIONS = [
     "with merging, notes of equal pitch and channel coming from different tracks are separated by at "
     "least one tick (order inside a tick of a merged track is mido's)",
     "before the first set_tempo the tempo is default_bpm (120 unless given)",
+    "silence-*: load_performance(..., first_note_at_zero=True) is the loaded content on a time axis whose "
+    "origin is the first note onset: notes are compared exactly (time - origin); control and program "
+    "changes are compared through the value in effect at every time >= 0 per (track, channel, number) "
+    "resp. (track, channel) - how events before the origin are represented (kept at 0, merged) is open, and "
+    "nothing is claimed before the first original event of a controller; key/time signatures and other "
+    "meta events are not compared there (the statement does not say whether they move); only files "
+    "that yield one performed part with at least one note are generated (which parts are shifted "
+    "otherwise is open); no two events of one controller share a tick",
 ]
 CHUNK = 40
 
@@ -696,6 +710,8 @@ def eval_case(case):
         return eval_rt(case)
     if case["kind"] == "unit":
         return eval_unit(case)
+    if case["kind"] == "sil":
+        return eval_silence(case)
     return eval_raw(case)
 
 
@@ -1304,6 +1320,303 @@ def gen_raw_keys():
                 evs = [[5, "on", ch, p, vel], [5, "cc", ch, (i * 7) % 128, (i * 3) % 128], [17, "off", ch, p, 99]]
                 yield dict(kind="raw", ppq=96, tracks=[evs], merge=0, bpm=120, io="path", loader="lpm")
 
+# ---------------------------------------------------------------------------------------------
+# (c) silence removal: load_performance(..., first_note_at_zero=True)
+
+
+def _silence_mismatch(exp, obs, claim_track, default_prog):
+    """exp: dict(notes=[...exact seconds...], events=[(group key, seconds, value)]) on the file's own time
+    axis; obs: observe(perf) of the performance loaded with first_note_at_zero=True.
+    Returns None or (clause, expected, observed, detail)."""
+    origin = min(n["on"] for n in exp["notes"])
+
+    def trk(x):
+        return x if claim_track else "any"
+
+    def compat(e, o):
+        for k in ("pitch", "vel", "ch"):
+            if not _eq(e[k], o.get(k)):
+                return False
+        if claim_track and not _eq(e["track"], o.get("track")):
+            return False
+        return _close(o.get("on"), e["on"] - origin) and _close(o.get("off"), e["off"] - origin)
+
+    if not M.match_records(exp["notes"], obs["notes"], compat):
+        return ("silence-notes",
+                sorted([dict(pitch=n["pitch"], vel=n["vel"], ch=n["ch"], track=trk(n["track"]), on=float(n["on"] - origin),
+                             off=float(n["off"] - origin)) for n in exp["notes"]], key=repr),
+                _render_obs("notes", obs["notes"]), "first onset of the file at %r s" % float(origin))
+    eg = {}
+    for key, t, v in exp["events"]:
+        key = (key[0], trk(key[1])) + tuple(key[2:])
+        eg.setdefault(key, []).append((t, v))
+    og = {}
+    try:
+        for c in obs["controls"]:
+            og.setdefault(("cc", trk(int(c["track"])), int(c["ch"]), int(c["num"])), []).append((c["t"], int(c["val"])))
+        for c in obs["programs"]:
+            og.setdefault(("pc", trk(int(c["track"])), int(c["ch"])), []).append((c["t"], int(c["prog"])))
+    except (TypeError, ValueError):
+        return ("silence-controls", "numeric track/channel/number/value", _render_obs("controls", obs["controls"]), "")
+    has_prog = any(k[0] == "pc" for k in eg)
+    for key in sorted(set(eg) | set(og), key=repr):
+        clause = "silence-controls" if key[0] == "cc" else "silence-programs"
+        what = "(kind, track, channel%s)=%r" % (", number" if key[0] == "cc" else "", key)
+        if key not in eg:
+            if key[0] == "pc" and default_prog and not has_prog and all(v == 0 for _, v in og[key]):
+                continue  # default program written by the exporter
+            return (clause, "no event for %s" % what, [[float(t), v] for t, v in og[key]],
+                    "a controller that the file never sets")
+        reason = SIL.compare_state(eg[key], og.get(key, []), origin)
+        if reason is not None:
+            return (clause, dict(group=list(key), state_from=[[float(t), v] for t, v in SIL.expected_steps(eg[key], origin)]),
+                    dict(events=[[float(t), v] for t, v in og.get(key, [])]),
+                    "%s; first onset of the file at %r s; %s" % (reason, float(origin), what))
+    return None
+
+
+def _expected_silence_raw(case, clock):
+    parts = M.ref_read(case["tracks"], merge=bool(case["merge"]))
+    if len(parts) != 1 or not parts[0]["notes"]:
+        raise ValueError("generator: a silence case must yield exactly one part with notes")
+    p = parts[0]
+    tr = 0 if case["merge"] else p["track"]
+    exp = dict(notes=[], events=[])
+    for n in p["notes"]:
+        exp["notes"].append(dict(pitch=n["pitch"], vel=n["vel"], ch=n["ch"], track=tr, on=clock(n["on"][0]), off=clock(n["off"][0])))
+    for c in p["controls"]:
+        exp["events"].append((("cc", tr, c["ch"], c["num"]), clock(c["t"][0]), c["val"]))
+    for c in p["programs"]:
+        exp["events"].append((("pc", tr, c["ch"]), clock(c["t"][0]), c["prog"]))
+    return exp
+
+
+def _expected_silence_rt(case):
+    ppq, mpq = case["cfg"]
+
+    def sec(t):
+        o = M.tick_options(t, ppq, mpq)
+        if len(o) != 1:
+            raise ValueError("generator: tie in a silence case")
+        return M.tick_seconds(o[0], ppq, mpq)
+
+    exp = dict(notes=[], events=[])
+    for p in case["parts"]:
+        for pitch, on, off, vel, ch, tr in p.get("notes", []):
+            exp["notes"].append(dict(pitch=pitch, vel=vel, ch=_ech(ch), track=0, on=sec(on), off=sec(off)))
+        for t, num, val, ch, tr in p.get("controls", []):
+            exp["events"].append((("cc", 0, _ech(ch), num), sec(t), val))
+        for t, prog, ch, tr in p.get("programs", []):
+            exp["events"].append((("pc", 0, _ech(ch)), sec(t), prog))
+    return exp
+
+
+def eval_silence(case):
+    import contextlib
+    import io
+
+    from partitura.io import load_performance
+    from partitura.performance import Performance
+
+    res = CaseResult(states=1, transitions=0, traces=1)
+    res.nontrivial = False
+    path = None
+    if case["src"] == "raw":
+        mf = mido_of_abstract(case["tracks"], case["ppq"])
+        if case["io"] == "object":
+            arg = mf
+        else:
+            arg = path = tmp_path("c06sil.mid")
+            mf.save(arg)
+        merge = bool(case["merge"])
+        readings = [_expected_silence_raw(case, clock) for clock in M.clocks(case["tracks"], case["ppq"], 500000)]
+        claim_track = merge or len(case["tracks"]) == 1
+        default_prog = False
+    else:
+        ok, parts = guarded(res, "silence-construct", build_parts, case)
+        if not ok:
+            res.outcome = "construct-exception"
+            return res
+        if case["inp"] == "perf":
+            ok, obj = guarded(res, "silence-construct", Performance, parts)
+            if not ok:
+                res.outcome = "construct-exception"
+                return res
+        elif case["inp"] == "ppart":
+            obj = parts[0]
+        else:
+            obj = list(parts)
+        saved = _save(case, obj, res, stage="silence")
+        res.transitions += 1
+        if saved is None:
+            res.outcome = "save-failed"
+            return res
+        arg = saved[1]
+        if case["io"] != "object":
+            path = arg
+        merge = bool(case["mload"])
+        readings = [_expected_silence_rt(case)]
+        claim_track = True
+        default_prog = True
+    try:
+        kw = dict(first_note_at_zero=True)
+        if merge or case.get("explicit"):
+            kw["merge_tracks"] = merge
+        with contextlib.redirect_stdout(io.StringIO()):  # it prints the swallowed loader errors
+            ok, perf = guarded(res, "silence-load", load_performance, arg, **kw)
+        res.transitions += 1
+    finally:
+        if path is not None:
+            _unlink(path)
+    if not ok:
+        res.outcome = "load-failed"
+        return res
+    ok, obs = guarded(res, "silence-loaded-structure", observe, perf)
+    if not ok:
+        res.outcome = "loaded-structure"
+        return res
+    nparts = len(perf.performedparts)
+    if nparts != 1:
+        res.fail("silence-parts", expected=1, observed=nparts, where="load_performance")
+        res.outcome = "parts=%d" % nparts
+        return res
+    first = None
+    for exp in readings:
+        bad = _silence_mismatch(exp, obs, claim_track, default_prog)
+        if bad is None:
+            first = None
+            break
+        if first is None:
+            first = bad
+    if first is not None:
+        clause, e, o, detail = first
+        res.fail(clause, expected=e, observed=o, where="load_performance(first_note_at_zero=True) / "
+                 "remove_silence_from_performed_part", detail=detail)
+    check_ids(res, "silence", perf, where="load_performance(first_note_at_zero=True)")
+    exp = readings[0]
+    origin = min(n["on"] for n in exp["notes"])
+    groups = {}
+    for key, t, v in exp["events"]:
+        groups.setdefault(key, []).append(t)
+    before = sum(1 for ts in groups.values() if max(ts) < origin)
+    straddle = sum(1 for ts in groups.values() if min(ts) < origin <= max(ts))
+    res.nontrivial = origin > 0
+    res.outcome = "silence=%s groups=%d only-before=%d straddling=%d %s" % (
+        "yes" if origin > 0 else "no", len(groups), before, straddle, "ok" if not res.violations else "bad")
+    return res
+
+
+# controller groups of the silence spaces: (kind, channel, controller number); values per kind
+SIL_GROUPS = [("cc", 0, 64), ("cc", 0, 7), ("cc", 1, 64), ("pc", 0, None)]
+SIL_VALUES = {"cc": (0, 127), "pc": (3, 9)}
+SIL_LAYOUTS = ("one", "cond", "two")
+SIL_TEMPOS = (None, "pre", "post")
+
+
+def silence_event_sets(npos, maxlen):
+    """every set of <= maxlen events over (time position, group), each with every value of its alphabet"""
+    positions = [(ti, g) for ti in range(npos) for g in range(len(SIL_GROUPS))]
+    for n in range(maxlen + 1):
+        for combo in itertools.combinations(positions, n):
+            for vals in itertools.product((0, 1), repeat=n):
+                yield n, [[ti, g, v] for (ti, g), v in zip(combo, vals)]
+
+
+def gen_silence_raw(quick, block):
+    """abstract files whose first note starts at tick S: note A (channel 0) [S, S+100], note B (channel 1)
+    [S+50, S+150]; control / program change events at ticks before, at and after S."""
+    i = 0
+    for S, ticks in ((200, [0, 100, 200, 250, 400]), (0, [0, 50, 300])):
+        maxlen = 3 if (S or not quick) else 2
+        si = 0
+        for n, evset in silence_event_sets(len(ticks), maxlen):
+            si += 1
+            for li, layout in enumerate(SIL_LAYOUTS):
+                for xi, tempo in enumerate(SIL_TEMPOS):
+                    i += 1
+                    if quick:
+                        # <=1 event: full product; 2 events: every layout, tempo cycled; 3 events: one
+                        # (layout, tempo) per set, cycled, and only the sets of the seed's block
+                        if n == 2 and xi != (si + li) % 3:
+                            continue
+                        if n == 3 and (li != si % 3 or xi != (si // 3) % 3):
+                            continue
+                        if n == 3 and block_of(["sil-raw", S, evset], block[1]) != block[0]:
+                            continue
+                    elif n == 3 and xi != (si + li) % 3:
+                        continue
+                    A = [[S, "on", 0, 60, 64], [S + 100, "off", 0, 60]]
+                    B = [[S + 50, "on", 1, 62, 80], [S + 150, "on0", 1, 62]]
+                    evs = []
+                    for ti, g, v in evset:
+                        kind, ch, num = SIL_GROUPS[g]
+                        val = SIL_VALUES[kind][v]
+                        evs.append([ticks[ti], "cc", ch, num, val] if kind == "cc" else [ticks[ti], "pc", ch, val])
+                    first = i % 2  # events before / after the note messages of the same tick
+                    if layout == "two":
+                        t0 = [e for e in evs if e[2] == 0]
+                        t1 = [e for e in evs if e[2] == 1]
+                        content = [sorted(t0 + A if first else A + t0, key=lambda e: e[0]),
+                                   sorted(t1 + B if first else B + t1, key=lambda e: e[0])]
+                        merge = 1
+                    else:
+                        tr = sorted(evs + A + B if first else A + B + evs, key=lambda e: e[0])
+                        content = [tr] if layout == "one" else [[], tr]
+                        merge = (i // 2) % 2
+                    if tempo is not None:
+                        tick = S // 2 if tempo == "pre" else S + 75
+                        content = _insert_tempo(content, [((i // 4) % 2 if layout == "two" else 0, tick, 250000)], after=(i // 8) % 2)
+                    yield dict(kind="sil", src="raw", ppq=[480, 96][i % 2], tracks=content, merge=merge,
+                               io=["path", "object"][(i // 2) % 2], explicit=i % 3 == 0, layout=layout, tempo=tempo)
+
+
+def gen_silence_rt(quick, block):
+    """performances saved with save_performance_midi: first note at S (tick units of the export
+    configuration: 0, 200.49, 240 1/3), note A (channel 0) [S, S+100.2], note B (channel 1) [S+50.3, S+150.4]."""
+    i = 0
+    for S in (F(0), F(20049, 100), F(721, 3)):
+        if S == 0:
+            pos = [F(0), F(503, 10), F(2004, 10)]
+        else:
+            pos = [F(0), F(401, 4), S - F(3, 10), S, S + F(503, 10), S + F(2004, 10)]
+        for n, evset in silence_event_sets(len(pos), 2):
+            if quick and n == 2 and block_of(["sil-rt", str(S), evset], block[1]) != block[0]:
+                i += 3
+                continue
+            for variant in ("single", "msave", "mload"):
+                i += 1
+                cfg = CONFIGS[i % 9]
+                trb = 0 if variant == "single" else 1
+                notes = [[60, M.tk(S, *cfg), M.tk(S + F(501, 5), *cfg), 64, 0, 0],
+                         [62, M.tk(S + F(503, 10), *cfg), M.tk(S + F(752, 5), *cfg), 80, 1, trb]]
+                part = dict(notes=notes, controls=[], programs=[])
+                seen = set()
+                ok = True
+                for ti, g, v in evset:
+                    kind, ch, num = SIL_GROUPS[g]
+                    val = SIL_VALUES[kind][v]
+                    t = M.tk(pos[ti], *cfg)
+                    o = M.tick_options(t, cfg[0], cfg[1])
+                    if len(o) != 1 or (g, o[0]) in seen:
+                        ok = False  # a tie, or two events of one controller in one tick (order open)
+                    seen.add((g, o[0]))
+                    tr = trb if ch == 1 else 0
+                    if kind == "cc":
+                        part["controls"].append([t, num, val, ch, tr])
+                    else:
+                        part["programs"].append([t, val, ch, tr])
+                if not ok:
+                    continue
+                if any(len(M.tick_options(x, cfg[0], cfg[1])) != 1 for nt in notes for x in (nt[1], nt[2])):
+                    continue
+                c = _rt([part], cfg, ["perf", "ppart", "list"][i % 3], (int(variant == "msave"), int(variant == "mload")),
+                        IOS[(i // 3) % 3], "lp", gen2=False, variant=variant)
+                c["kind"] = "sil"
+                c["src"] = "rt"
+                c["explicit"] = i % 2 == 0
+                if valid_rt(c):
+                    yield c
+
 
 def spaces(tier, seed):
     quick = tier == "quick"
@@ -1369,8 +1682,28 @@ def spaces(tier, seed):
                     "seconds_to_midi_ticks (scalar and array) on the same ticks"))
     sp.append(Space("raw-keys", gen_raw_keys, True,
                     "nested notes for all ordered pairs of (channel{0,1,2,15}, pitch{0,1,126,127}); every channel x pitch{0,60,127} x velocity{1,127}"))
+    BS = 8
+    sp.append(Space("silence-raw", lambda: gen_silence_raw(quick, (seed % BS, BS)), True,
+                    "load_performance(first_note_at_zero=True) on abstract files: notes at [S,S+100] (channel 0) and "
+                    "[S+50,S+150] (channel 1), S in {200, 0} ticks; every set of <=3 (S=200) / <=%d (S=0) control/program "
+                    "change events over tick {0,100,200,250,400} (S=200) / {0,50,300} (S=0) x group {ch0 cc64, ch0 cc7, ch1 "
+                    "cc64, ch0 program} x 2 values (no two events of a group in one tick); layouts {one track, empty "
+                    "conductor track + one track, two tracks merged on load} x tempo change {none, inside the silence, "
+                    "after the first onset}%s; ppq{480,96}, object/path, order inside a tick, merge flag cycled; only "
+                    "files that yield one part" % (
+                        (2, ": full product for <=1 event, every layout with the tempo cycled for 2 events, one "
+                            "(layout, tempo) per set and block %d of %d of the sets for 3 events" % (seed % BS, BS)) if quick
+                        else (3, ": full product for <=2 events, every layout with the tempo cycled for 3 events"))))
+    BR = 4
+    sp.append(Space("silence-rt", lambda: gen_silence_rt(quick, (seed % BR, BR)), True,
+                    "save_performance_midi then load_performance(first_note_at_zero=True): two notes (channels 0, 1), first "
+                    "onset S in {0, 200.49, 240 1/3} ticks of the export configuration; every set of <=2 control/program "
+                    "change events over time {0, 100.25, S-0.3 (same tick as S), S, S+50.3, S+200.4} x the 4 groups x 2 "
+                    "values%s x {one track; two tracks merged on save; two tracks merged on load}; 9 (ppq,mpq), "
+                    "input kind and output kind cycled; no tick ties" % (
+                        " (pairs: block %d of %d)" % (seed % BR, BR) if quick else "")))
     # files first, then the round trips from small to large (the runner keeps the first 20000 violations)
-    order = ["unit-time", "raw-keys", "raw-pairing", "raw-tempo", "rt-defaults", "rt-single-track", "rt-signatures", "rt-ranges",
+    order = ["unit-time", "raw-keys", "raw-pairing", "raw-tempo", "silence-raw", "silence-rt", "rt-defaults", "rt-single-track", "rt-signatures", "rt-ranges",
              "rt-multi-part", "rt-multi-part-3", "rt-two-notes", "rt-events", "rt-three-notes", "rt-one-note"]
     sp.sort(key=lambda s: order.index(s.name))
     return sp
